@@ -93,10 +93,10 @@ CastFails == IF env.noexc THEN TermRes ELSE BadCast
 (* Operations (every public member and non-member of xany.hpp):
      DefaultConstruct   any()
      Construct          any(ValueType&&)           g.t, g.v: type and value; g.form: how the value is passed
-     CopyConstruct      any(const any&)            g.j: source; g.nc: its value category - 0 const lvalue, 1 non-const lvalue,
-                                                   2 CONST RVALUE (any(static_cast<const any&&>(x)): still a copy, [any.cons]: the converting
-                                                   constructor does not participate for decay_t<ValueType> = any); same for CopyAssign
+     CopyConstruct      any(const any&)            g.j: source (passed as a const lvalue; the other categories: ConstructFrom)
      MoveConstruct      any(any&&)
+     ConstructFrom      any(e), e an any expression of category g.cat \in SrcCats (see below); g.j: the source object
+     AssignFrom         operator=(e), likewise; g.j = k allowed
      CopyAssign         operator=(const any&)      g.j = k allowed
      MoveAssign         operator=(any&&)           g.j = k allowed
      AssignValue        operator=(ValueType&&)
@@ -109,6 +109,20 @@ CastFails == IF env.noexc THEN TermRes ELSE BadCast
    g.fuse = n > 0: the n-th throwing-capable payload constructor of the call throws. *)
 
 ValueForms == {"lv", "clv", "rv", "crv"}      \* T&, const T&, T&&, const T&&
+(* Round 4: VALUE CATEGORY x CONSTNESS OF AN any SOURCE.  The client writes  any b(e)  /  b = e  where e is an expression of
+   type any; which constructor / assignment operator runs is decided by overload resolution and is part of the property:
+   [any.cons]/[any.assign] - the converting constructor any(ValueType&&) and operator=(ValueType&&) do not participate when
+   decay_t<ValueType> is any, so
+       e : any&         (cat "lv")   copies          e : const any&   (cat "clv")  copies
+       e : any&&        (cat "rv")   moves           e : const any&&  (cat "crv")  COPIES (a const rvalue cannot be moved from)
+   ConstructFrom / AssignFrom are these two calls with the category as an argument; EffOp names the operation that must run.
+   A library that stores the source any itself as a payload, or recurses, for one of the categories fails Post (or never
+   returns: the trace then ends with a Crash event, which no action matches). *)
+SrcCats == {"lv", "clv", "rv", "crv"}
+SrcOps  == {"ConstructFrom", "AssignFrom"}
+EffOp(op, g) == IF op = "ConstructFrom" THEN (IF g.cat = "rv" THEN "MoveConstruct" ELSE "CopyConstruct")
+                ELSE IF op = "AssignFrom" THEN (IF g.cat = "rv" THEN "MoveAssign" ELSE "CopyAssign")
+                ELSE op
 FormsOf(t) == ValueForms \cup (IF t \in DecayTypes THEN {"decay"} ELSE {})    \* "decay": an array / a function itself
 PtrForms  == {"p_m", "p_mc", "p_c", "p_cc"}    \* any_cast<U>(any*), <const U>(any*), <U>(const any*), <const U>(const any*)
 NullForms == {"p_n", "p_nc"}                   \* any_cast<U>((any*)nullptr), ((const any*)nullptr)
@@ -122,7 +136,7 @@ NoexceptOps == {"DefaultConstruct", "MoveConstruct", "MoveAssign", "Swap", "StdS
 ObserverOps == {"HasValue", "Empty", "Type"}
 
 (* C++ preconditions of the call (and the protocol of explicit construction/destruction) *)
-Pre(op, k, g) ==
+Pre0(op, k, g) ==
     /\ k \in Anys
     /\ (AF(g) > 0 => op \in AllocatingOps)
     /\ CASE op \in {"DefaultConstruct", "Construct"} -> a[k] = RAW
@@ -133,6 +147,8 @@ Pre(op, k, g) ==
          [] op = "Cast" -> /\ g.form \in CastForms /\ (a[k] # RAW \/ g.form \in NullForms)
                            /\ (g.t = "Arr" => g.form \in PtrForms \cup NullForms)     \* a function cannot return an array
          [] OTHER -> FALSE
+Pre(op, k, g) == /\ (op \in SrcOps => "cat" \in DOMAIN g /\ g.cat \in SrcCats)
+                 /\ Pre0(EffOp(op, g), k, g)
 
 ----------------------------------------------------------------------------
 (* A "world" is a record [a, u, lt] (plus spc for the world after a call). *)
@@ -172,7 +188,7 @@ Holds(W2, k, t, v) == Contains(W2, k) /\ Ty(W2, k) = t /\ Va(W2, k) = v
 Valid(W2, k) == W2.a[k] = EMPTY \/ Contains(W2, k)
 
 (* The post-condition of one call.  W: before; W2: after; threw: an injected constructor fault fired. *)
-Post(op, k, g, W, W2, res, threw) ==
+Post0(op, k, g, W, W2, res, threw) ==
     LET Fr(T) == \A i \in Anys \ T : Same(W, i, W2)
         None  == res = NoRes /\ ~threw
         Fuse  == \/ res = FuseRes /\ threw /\ g.fuse > 0
@@ -239,6 +255,8 @@ Post(op, k, g, W, W2, res, threw) ==
                             /\ W2.a[k] = x /\ x \in Live(W2.lt) /\ W2.lt.val[x] = g.v /\ Fr({k})
                 ELSE ~threw /\ res = NullRes /\ Fr({})
          [] OTHER -> FALSE
+(* a call that takes an any expression behaves as the operation overload resolution must select for its category *)
+Post(op, k, g, W, W2, res, threw) == Post0(EffOp(op, g), k, g, W, W2, res, threw)
 
 (* Storage (round 3): heap = number of blocks obtained from operator new while the library executed allocating calls and
    not yet given back.  When no any object contains anything, none may be outstanding (a block that outlives its object is
@@ -322,14 +340,14 @@ V1(k) == View(a', u', lt', k)
 
 ObserversPure     == [][last'.op \in ObserverOps \cup {"Cast"} /\ ~(last'.op = "Cast" /\ last'.a.form \in RvalForms)
                           => \A k \in Anys : V1(k) = V0(k)]_vars
-NoexceptNeverThrow == [][last'.op \in NoexceptOps => last'.res.exc = "none"]_vars
+NoexceptNeverThrow == [][EffOp(last'.op, last'.a) \in NoexceptOps => last'.res.exc = "none"]_vars
 (* a call that threw changed no any object's value *)
 ThrowChangesNothing == [][last'.res.exc # "none" => \A k \in Anys : V1(k) = V0(k)]_vars
 (* a call touches only the objects it names *)
 OthersUntouched == [][\A k \in Anys : (k # last'.k /\ ("j" \notin DOMAIN last'.a \/ k # last'.a.j))
                                          => V1(k) = V0(k)]_vars
 (* after a successful copy the target shows the source's value and the source still shows it *)
-CopyCopies == [][(last'.op \in {"CopyConstruct", "CopyAssign"} /\ last'.res.exc = "none")
+CopyCopies == [][(EffOp(last'.op, last'.a) \in {"CopyConstruct", "CopyAssign"} /\ last'.res.exc = "none")
                     => /\ V1(last'.k) = V0(last'.a.j)
                        /\ V1(last'.a.j) = V0(last'.a.j)]_vars
 SwapSwaps == [][last'.op \in {"Swap", "StdSwap"}
@@ -339,4 +357,11 @@ SwapSwaps == [][last'.op \in {"Swap", "StdSwap"}
 ObserversAgree == [][/\ last'.op = "HasValue" => (last'.res.v = 1) = (V0(last'.k)[1] \notin {"raw", "empty"})
                      /\ last'.op = "Empty"    => (last'.res.v = 1) = (V0(last'.k)[1] = "empty")
                      /\ last'.op = "Type"     => last'.res.ty = (IF V0(last'.k)[1] = "empty" THEN "void" ELSE V0(last'.k)[1])]_vars
+(* round 4: the category of an any source decides copy vs move and nothing else - in particular a CONST RVALUE source is
+   copied: afterwards source and target both show the source's value *)
+NonRvalueSourceCopies == [][(last'.op \in SrcOps /\ last'.a.cat # "rv" /\ last'.res.exc = "none")
+                           => /\ V1(last'.k) = V0(last'.a.j)
+                              /\ V1(last'.a.j) = V0(last'.a.j)]_vars
+(* ... and an rvalue source gives its value to the target (the source is left valid but unspecified) *)
+RvalueMoves == [][(last'.op \in SrcOps /\ last'.a.cat = "rv" /\ last'.a.j # last'.k) => V1(last'.k) = V0(last'.a.j)]_vars
 =============================================================================
